@@ -550,6 +550,38 @@ fn e7() -> Vec<Case> {
 /// element is asked for: elements pushed during the loop are visited, elements popped are not, an element
 /// overwritten ahead of the cursor is seen with its new value - with `continue` right after the change,
 /// `break` one iteration later, or neither; also through an explicit iterator driven by hand.
+/// E9: a literal inside an interpolation.  `"${L}"` for every kind of literal L (numbers, strings, true, false,
+/// nil), bare and in brackets, once, twice and next to other text, with the same literal used as an ordinary
+/// operand before and after it in the same function: the interpolation yields the text `String.from(L)`
+/// gives, and the other occurrences keep their kind and value.
+fn e9() -> Vec<Case> {
+    let mut out = Vec::new();
+    let lits: Vec<Expr> = vec![num(0.0), num(1.0), num(0.1), num(2.5), num(255.0), num(1e21), num(123456789012.0), s(""), s("x"), s("0.1"), s("a b"), Expr::True, Expr::False, Expr::Nil];
+    for l in &lits {
+        for shape in 0..4usize {
+            let inner = |e: Expr| if shape % 2 == 1 { Expr::Paren(Box::new(e)) } else { e };
+            let interp = if shape < 2 {
+                Expr::Interp(vec![Part::Expr(inner(l.clone()))])
+            } else {
+                Expr::Interp(vec![Part::Lit("[".into()), Part::Expr(inner(l.clone())), Part::Lit("|".into()), Part::Expr(inner(l.clone())), Part::Lit("]".into())])
+            };
+            let body = vec![
+                var_stmt("a", l.clone()),
+                var_stmt("t", interp),
+                var_stmt("b", l.clone()),
+                print_stmt(var("t")),
+                print_stmt(Expr::VecLit(vec![call(var("type"), vec![var("a")]), call(var("type"), vec![var("b")]), call(var("type"), vec![var("t")])])),
+                print_stmt(Expr::VecLit(vec![bin(BinOp::Eq, var("a"), var("b")), bin(BinOp::Eq, var("a"), l.clone()), bin(BinOp::Eq, invoke(var("String"), "from", vec![var("a")]), Expr::Interp(vec![Part::Expr(var("b"))]))])),
+                st(StmtKind::Try(vec![print_stmt(bin(BinOp::Add, var("a"), l.clone()))], Some(("e".into(), vec![print_stmt(call(var("type"), vec![var("e")]))])), None)),
+            ];
+            // in a function of its own and at the top level of the program
+            out.push(Case::new("E9_a_literal_inside_an_interpolation", vec![fn_stmt(func("f", &[], body.clone())), expr_stmt(call(var("f"), vec![]))]));
+            out.push(Case::new("E9_a_literal_inside_an_interpolation", body));
+        }
+    }
+    out
+}
+
 fn e8() -> Vec<Case> {
     let mut out = Vec::new();
     let changes: Vec<(&str, Vec<Stmt>)> = vec![
@@ -604,14 +636,14 @@ pub fn operator_cases() -> Vec<Case> {
 }
 
 pub fn cases_for_c04(thorough: bool) -> Vec<Case> {
-    witnesses().into_iter().chain(e4()).chain(e5(if thorough { 5 } else { 4 })).chain(e6()).chain(e7()).chain(e8()).collect()
+    witnesses().into_iter().chain(e4()).chain(e5(if thorough { 5 } else { 4 })).chain(e6()).chain(e7()).chain(e8()).chain(e9()).collect()
 }
 
 pub fn run(ctx: &Ctx) -> Report {
     let thorough = ctx.thorough();
     let mut report = Report::new();
     let size = if thorough { 5 } else { 4 };
-    let cases = witnesses().into_iter().chain(e1()).chain(e2(thorough)).chain(e3(thorough)).chain(e4()).chain(e5(size)).chain(e6()).chain(e7()).chain(e8());
+    let cases = witnesses().into_iter().chain(e1()).chain(e2(thorough)).chain(e3(thorough)).chain(e4()).chain(e5(size)).chain(e6()).chain(e7()).chain(e8()).chain(e9());
     let hooks = Hooks {
         attribute: &|_c, _m, _o, _mm| None,
         nontrivial: &|_c, m| m.out.len() >= 1 || matches!(m.outcome, Outcome::Uncaught(_)),
